@@ -235,8 +235,9 @@ func (t *staticTree) match(segment string, _ Params) bool {
 // regexTree is a tree with a regex match style.
 type regexTree struct {
 	baseTree
-	regexp *regexp.Regexp // The regexp for the tree.
-	binds  []string       // The list of bind parameters.
+	regexp  *regexp.Regexp // The regexp for the tree.
+	binds   []string       // The list of bind parameters.
+	indexes []int          // The sub-match index of each bind parameter, nil when they are consecutive.
 }
 
 func (*regexTree) getMatchStyle() MatchStyle {
@@ -251,12 +252,12 @@ func (t *regexTree) getBinds() []string {
 
 func (t *regexTree) match(segment string, params Params) bool {
 	submatches := t.regexp.FindStringSubmatch(segment)
-	if len(submatches) != len(t.binds)+1 {
+	if len(submatches) < len(t.binds)+1 {
 		return false
 	}
 
 	for i, bind := range t.binds {
-		params[bind] = submatches[i+1]
+		params[bind] = submatches[submatchIndex(t.indexes, i)]
 	}
 	return true
 }
@@ -377,7 +378,7 @@ func newTree(parent Tree, s *Segment) (Tree, error) {
 	}
 
 	// The only remaining style is regex.
-	re, binds, err := constructMatchStyleRegex(s)
+	re, binds, indexes, err := constructMatchStyleRegex(s)
 	if err != nil {
 		return nil, err
 	}
@@ -393,8 +394,9 @@ func newTree(parent Tree, s *Segment) (Tree, error) {
 			parent:  parent,
 			segment: s,
 		},
-		regexp: re,
-		binds:  binds,
+		regexp:  re,
+		binds:   binds,
+		indexes: indexes,
 	}, nil
 }
 
